@@ -6,7 +6,7 @@ import (
 	"fmt"
 	"go/token"
 	"go/types"
-	"strings"
+	"math/big"
 
 	"golang.org/x/tools/go/ssa"
 )
@@ -227,7 +227,7 @@ func (x *Exec) builtin(st *State, fr *Frame, bi *ssa.Builtin, args []Val, in ssa
 	case "len":
 		a := args[0]
 		if a.K == KSlice {
-			return Val{K: KInt, T: sLen(a.T), Typ: types.Typ[types.Int]}
+			return Val{K: KInt, T: sLen(a.T), Typ: types.Typ[types.Int], Lo: big.NewInt(0), Hi: new(big.Int).Lsh(big.NewInt(1), 48)}
 		}
 		if a.K == KPtr && a.Ptr != nil && a.Ptr.IsArr {
 			return Val{K: KInt, T: fmt.Sprint(a.Ptr.ArrLen), Typ: types.Typ[types.Int]}
@@ -236,7 +236,7 @@ func (x *Exec) builtin(st *State, fr *Frame, bi *ssa.Builtin, args []Val, in ssa
 	case "cap":
 		a := args[0]
 		if a.K == KSlice {
-			return Val{K: KInt, T: sCap(a.T), Typ: types.Typ[types.Int]}
+			return Val{K: KInt, T: sCap(a.T), Typ: types.Typ[types.Int], Lo: big.NewInt(0), Hi: new(big.Int).Lsh(big.NewInt(1), 48)}
 		}
 		bail("cap of %v", a.Typ)
 	case "append":
@@ -244,47 +244,41 @@ func (x *Exec) builtin(st *State, fr *Frame, bi *ssa.Builtin, args []Val, in ssa
 		if s.K != KSlice || a.K != KSlice {
 			bail("append on non-slices")
 		}
-		st0 := s.Typ
-		if st0 == nil || elemOfSliceType(st0) == nil {
-			st0 = in.Value().Type()
-		}
 		key, el := x.sliceHeap(in.Value().Type())
 		hs := ss.heapSort(el, true)
 		srcKey, _ := x.sliceHeap(a.Typ)
 		h := st.heap(key, hs)
 		hsrc := st.heap(srcKey, ss.heapSort(el, true))
-		n := sLen(a.T)
-		newLen := sx("+", sLen(s.T), n)
+		nv, ok := litVal(sLen(a.T))
+		if !ok || nv > 16 {
+			bail("append of a slice whose length is not a small constant (%s)", sLen(a.T))
+		}
+		n := fmt.Sprint(nv)
+		newLen := plus(sLen(s.T), n)
 		fits := sx("<=", newLen, sCap(s.T))
 		x.allocCheck(st, fr, sx("*", newLen, fmt.Sprint(sizeofType(el))), pos)
-		// result header
 		fresh := x.allocRoot(st, "app")
 		newCap := x.freshName("appcap")
 		st.declare(newCap, "Int")
 		st.assume(sx(">=", newCap, newLen))
-		res := x.freshName("app")
-		st.declare(res, "Slice")
-		st.assume(sx("=", res, ite(fits, sx("mk_slice", sArr(s.T), sOff(s.T), newLen, sCap(s.T)), sx("mk_slice", fresh, "0", newLen, newCap))))
-		// row contents: prefix preserved, appended elements copied
-		row := x.freshName("approw")
-		st.declare(row, fmt.Sprintf("(Array Int %s)", ss.sortOf(el)))
-		oldRow := sx("select", h, sArr(s.T))
-		srcRow := sx("select", hsrc, sArr(a.T))
-		k := x.freshName("k")
-		base := ite(fits, sOff(s.T), "0")
-		// in place: everything outside the appended window is unchanged; fresh: prefix copied
-		st.assume(fmt.Sprintf("(forall ((%s Int)) (! (=> (and (<= 0 %s) (< %s %s)) (= (select %s (+ %s %s)) (select %s (+ %s %s)))) :pattern ((select %s (+ %s %s)))))",
-			k, k, k, sLen(s.T), row, base, k, oldRow, sOff(s.T), k, row, base, k))
-		st.assume(fmt.Sprintf("(forall ((%s Int)) (! (=> (and (<= 0 %s) (< %s %s)) (= (select %s (+ %s %s %s)) (select %s (+ %s %s)))) :pattern ((select %s (+ %s %s %s)))))",
-			k, k, k, n, row, base, sLen(s.T), k, srcRow, sOff(a.T), k, row, base, sLen(s.T), k))
-		st.assume(implies(fits, fmt.Sprintf("(forall ((%s Int)) (! (=> (or (< %s (+ %s %s)) (>= %s (+ %s %s))) (= (select %s %s) (select %s %s))) :pattern ((select %s %s))))",
-			k, k, sOff(s.T), sLen(s.T), k, sOff(s.T), newLen, row, k, oldRow, k, row, k)))
-		if isLit(n) || strings.HasPrefix(n, "(s_len (mk_slice") {
-			// small constant appends: also state the elements pointwise (helps the solvers)
+		// Contents: the new backing row is the old row with the appended elements stored behind
+		// the old length. When the array is reallocated the same row (same offset) is installed
+		// under a fresh root; the slots beyond the new length are then junk rather than zero,
+		// which is unobservable because reslicing beyond len is rejected (see sliceOp).
+		row := sx("select", h, sArr(s.T))
+		for i := int64(0); i < nv; i++ {
+			e := sx("select", sx("select", hsrc, sArr(a.T)), plus(sOff(a.T), fmt.Sprint(i)))
+			row = sx("store", row, plus(plus(sOff(s.T), sLen(s.T)), fmt.Sprint(i)), e)
 		}
-		x.frameCheckRegion(st, fr, key, sArr(s.T), sx("+", sOff(s.T), sLen(s.T)), sx("+", sOff(s.T), newLen), pos, implies(fits, "PLACEHOLDER"))
-		x.setHeap(st, key, hs, sx("store", h, ite(fits, sArr(s.T), fresh), row))
-		return Val{K: KSlice, T: res, Typ: in.Value().Type()}
+		newArr := x.freshName("apparr")
+		st.declare(newArr, "Int")
+		st.assume(sx("=", newArr, ite(fits, sArr(s.T), fresh)))
+		capT := x.freshName("appc")
+		st.declare(capT, "Int")
+		st.assume(sx("=", capT, ite(fits, sCap(s.T), newCap)))
+		x.frameCheckRegion(st, fr, key, sArr(s.T), plus(sOff(s.T), sLen(s.T)), plus(sOff(s.T), newLen), pos, fits)
+		x.setHeap(st, key, hs, sx("store", h, newArr, row))
+		return Val{K: KSlice, T: sx("mk_slice", newArr, sOff(s.T), newLen, capT), Typ: in.Value().Type()}
 	case "copy":
 		d, s := args[0], args[1]
 		key, el := x.sliceHeap(d.Typ)
@@ -593,9 +587,12 @@ func (x *Exec) frameCheck(st *State, fr *Frame, p *Pointer, pos token.Pos) {
 	x.emit(st, "frame", lbl, "written location is in the modifies clause or freshly allocated", or(alts...), nil, pos, fr)
 }
 
-func (x *Exec) frameCheckRegion(st *State, fr *Frame, heap, root, lo, hi string, pos token.Pos, _ string) {
+func (x *Exec) frameCheckRegion(st *State, fr *Frame, heap, root, lo, hi string, pos token.Pos, guard string) {
 	if !x.frameApplies() {
 		return
+	}
+	if guard == "" {
+		guard = "true"
 	}
 	var alts []string
 	alts = append(alts, sx(">", root, x.entry.top), sx(">=", lo, hi))
@@ -609,7 +606,7 @@ func (x *Exec) frameCheckRegion(st *State, fr *Frame, heap, root, lo, hi string,
 	if fr != nil && fr.inl != "" {
 		lbl = fr.inl + "." + lbl
 	}
-	x.emit(st, "frame", lbl, "written region is in the modifies clause or freshly allocated", or(alts...), nil, pos, fr)
+	x.emit(st, "frame", lbl, "written region is in the modifies clause or freshly allocated", implies(guard, or(alts...)), nil, pos, fr)
 }
 
 func (x *Exec) frameCheckGhost(st *State, fr *Frame, heap, key string, pos token.Pos) {
